@@ -213,7 +213,7 @@ pub fn plan(prop: &str, tier: &str) -> Option<Plan> {
                 s.push(e2(prop, "tk", H_GOOD, "look1+mut+ch0+shape2", &[], 3, "chk", 40.0));
                 s.push(e2(prop, "zst", H_GOOD, "look+mut+ch1+bulk2+shape2", &[], 1, "chk", 40.0));
                 s.push(e2(prop, "u32", H_CONST, "look1+mut+ch0+shape2", &[], 3, "chk", 40.0));
-                // 192-byte, 64-byte-aligned elements with self-checking padding
+                // 1 KiB, 64-byte-aligned elements with self-checking padding
                 s.push(e1(prop, "big", H_GOOD, 0, full, &[], 40, 1, 1, "chk", 40.0));
                 s.push(e2(prop, "big", H_LOW, "look1+mut+ch0+shape2", &[], 3, "chk", 40.0));
                 s.push(e1(prop, "u32", H_GOOD, 0, "look1+mut+ch0+shape", &[], 600, 1, 0, "chk", 40.0));
@@ -276,6 +276,7 @@ pub fn plan(prop: &str, tier: &str) -> Option<Plan> {
                     s.push(e1(prop, "u32", hk, 0, a1, &fl, 64, 1, 1, "chk", 40.0));
                 }
                 s.push(e1(prop, "u32", H_GOOD, 0, a1, &fl, 130, 1, 1, "chk", 40.0));
+                s.push(e1(prop, "big", H_GOOD, 0, a1, &fl, 64, 1, 1, "chk", 40.0));
                 s.push(e1(prop, "u32", H_GOOD, 0, a2, &fl, 31, 2, 1, "chk", 40.0));
                 s.push(e1(prop, "u32", H_LOW, 0, a2, &fl, 31, 2, 1, "chk", 40.0));
                 s.push(e2(prop, "u32", H_GOOD, "look1+mut+ch0+shape2", &fl, 4, "chk", 40.0));
@@ -292,6 +293,8 @@ pub fn plan(prop: &str, tier: &str) -> Option<Plan> {
                     s.push(e1(prop, "u32", hk, 0, a2, &fl, 64, 2, 1, "chk", 900.0));
                 }
                 s.push(e1(prop, "u32", H_GOOD, 0, "mut+ch0+shape", &fl, 31, 3, 1, "chk", 900.0));
+                s.push(e1(prop, "big", H_GOOD, 0, a1, &fl, 130, 1, 1, "chk", 900.0));
+                s.push(e1(prop, "big", H_LOW, 0, a2, &fl, 40, 2, 1, "chk", 900.0));
                 for &hk in &[H_GOOD, H_LOW] {
                     s.push(e2(prop, "u32", hk, "look1+mut+ch0+shape2", &fl, 6, "chk", 900.0));
                 }
@@ -321,6 +324,9 @@ pub fn plan(prop: &str, tier: &str) -> Option<Plan> {
                 s.push(e1(prop, "u32", H_GOOD, 0, a, &fl, 130, 1, 1, "chk", 40.0));
                 s.push(e1(prop, "u32", H_GOOD, 0, a, &fl, 600, 1, 0, "chk", 40.0));
                 s.push(e1(prop, "tk", H_GOOD, 0, a, &fl, 31, 1, 1, "chk", 40.0));
+                // the per-call amount of moving must not depend on the element size (2 KiB slots)
+                s.push(e1(prop, "big", H_GOOD, 0, a, &fl, 64, 1, 1, "chk", 40.0));
+                s.push(as_set(e1(prop, "big", H_GOOD, 0, "skey+sshape", &fl, 40, 1, 1, "chk", 40.0)));
                 s.push(e2(prop, "u32", H_GOOD, "look1+mut+ch0+shape2", &fl, 4, "chk", 40.0));
                 s.push(e2(prop, "u32", H_CONST, "look1+mut+ch0+shape2", &fl, 3, "chk", 40.0));
                 s.push(e2(prop, "zst", H_GOOD, "look+mut+ch1+bulk2+shape2", &fl, 1, "chk", 40.0));
@@ -333,6 +339,9 @@ pub fn plan(prop: &str, tier: &str) -> Option<Plan> {
                     s.push(e1(prop, "u32", hk, 0, a, &fl, 64, 2, 1, "chk", 900.0));
                     s.push(e1(prop, "tk", hk, 0, a, &fl, 33, 2, 1, "chk", 900.0));
                 }
+                s.push(e1(prop, "big", H_GOOD, 0, a, &fl, 130, 1, 1, "chk", 900.0));
+                s.push(e1(prop, "big", H_LOW, 0, a, &fl, 40, 2, 1, "chk", 900.0));
+                s.push(as_set(e1(prop, "big", H_GOOD, 0, "skey+sshape", &fl, 130, 1, 1, "chk", 900.0)));
                 s.push(e1(prop, "u32", H_GOOD, 0, "mut+ch0+shape", &fl, 31, 3, 1, "chk", 900.0));
                 for &hk in &[H_GOOD, H_LOW] {
                     s.push(e2(prop, "u32", hk, "look1+mut+ch0+shape2", &fl, 6, "chk", 900.0));
@@ -354,6 +363,7 @@ pub fn plan(prop: &str, tier: &str) -> Option<Plan> {
                 }
                 s.push(e1(prop, "u32", H_GOOD, 0, "cap+fill+clone", &fl, 600, 1, 0, "chk", 40.0));
                 s.push(e1(prop, "u32", H_GOOD, 0, "mut1+ch0+shape+cap+fill", &fl, 130, 1, 1, "chk", 40.0));
+                s.push(e1(prop, "big", H_GOOD, 0, "mut1+ch0+shape+cap+fill", &fl, 64, 1, 1, "chk", 40.0));
                 s.push(e2(prop, "u32", H_GOOD, "mut1+ch0+shape2+fill", &fl, 4, "chk", 40.0));
                 s.push(e2(prop, "u32", H_LOW, "mut1+ch0+shape2+fill", &fl, 4, "chk", 40.0));
                 s.push(e2(prop, "zst", H_GOOD, "mut+ch1+bulk2+shape2+fill", &fl, 1, "chk", 40.0));
@@ -370,6 +380,8 @@ pub fn plan(prop: &str, tier: &str) -> Option<Plan> {
                 }
                 s.push(e1(prop, "u32", H_GOOD, 0, "cap+fill+clone", &fl, 4096, 1, 0, "chk", 900.0));
                 s.push(e1(prop, "tk", H_GOOD, 0, a, &fl, 33, 2, 1, "chk", 900.0));
+                s.push(e1(prop, "big", H_GOOD, 0, a, &fl, 33, 2, 1, "chk", 900.0));
+                s.push(e1(prop, "big", H_GOOD, 0, "mut1+ch0+shape+cap+fill", &fl, 130, 1, 1, "chk", 900.0));
                 s.push(e1(prop, "u32", H_GOOD, 0, "mut1+ch0+shape+fill/mut1+ch0+cap+fill+clone", &fl, 31, 3, 1, "chk", 900.0));
                 for &hk in &[H_GOOD, H_LOW] {
                     s.push(e2(prop, "u32", hk, "mut1+ch0+shape2+fill", &fl, 6, "chk", 900.0));
@@ -411,7 +423,7 @@ pub fn plan(prop: &str, tier: &str) -> Option<Plan> {
                     s.push(e1(prop, "big", H_GOOD, 0, "look1+mut+ch1+bulk+shape+iterlite", &fl, if prof == "asan" { 31 } else { 40 }, 1, 1, prof, 45.0));
                     s.push(as_set(e1(prop, "big", H_LOW, 0, "skey+sshape", &fl, 31, 1, 1, prof, 45.0)));
                 }
-                bounds = json!({"large elements": "192-byte, 64-byte-aligned elements with self-checking padding: d<=1 at N=31..40, map and set", "E1": "Tk: d<=1 at N=64 / d<=2 at N=18 (chk), d<=1 at N=31..48 (asan)", "E2": "fixpoint u=3 (Tk; u=2 for HConst under asan), ZST", "profiles": "asan (optimised, assertions off) and chk (hashbrown debug assertions on)"});
+                bounds = json!({"large elements": "1 KiB, 64-byte-aligned elements (2 KiB map slots) with self-checking padding: d<=1 at N=31..40, map and set", "E1": "Tk: d<=1 at N=64 / d<=2 at N=18 (chk), d<=1 at N=31..48 (asan)", "E2": "fixpoint u=3 (Tk; u=2 for HConst under asan), ZST", "profiles": "asan (optimised, assertions off) and chk (hashbrown debug assertions on)"});
             } else {
                 for &prof in &["asan", "chk"] {
                     for &hk in &HS4 {
@@ -433,7 +445,7 @@ pub fn plan(prop: &str, tier: &str) -> Option<Plan> {
                     s.push(as_set(e1(prop, "big", H_LOW, 0, "skey+sshape+siter", &fl, 64, 1, 1, prof, 900.0)));
                     s.push(e2(prop, "big", H_GOOD, "look1+mut+ch0+shape2+iterlite", &fl, 4, prof, 1200.0));
                 }
-                bounds = json!({"large elements": "192-byte, 64-byte-aligned elements: d<=1 at N=130, d<=2 at N=33, E2 u=4", "E1": "Tk: d<=1 at N=130, d<=2 at N=33 (4 hashers, both profiles)", "E2": "fixpoint u=5/4 (Tk), ZST"});
+                bounds = json!({"large elements": "1 KiB, 64-byte-aligned elements: d<=1 at N=130, d<=2 at N=33, E2 u=4", "E1": "Tk: d<=1 at N=130, d<=2 at N=33 (4 hashers, both profiles)", "E2": "fixpoint u=5/4 (Tk), ZST"});
             }
         }
         "C06" => {
@@ -517,6 +529,11 @@ pub fn plan(prop: &str, tier: &str) -> Option<Plan> {
                 s.push(e1(prop, "u32", H_GOOD, 0, "rmold/rmold/predlite", &["cursor"], 72, 3, 0, "chk", 45.0));
                 s.push(e1(prop, "tk", H_GOOD, 0, "pred", &["cursor"], 64, 1, 0, "chk", 45.0));
                 s.push(e2(prop, "u32", H_GOOD, "mut1+ch0+shape2+pred", &["cursor"], 3, "chk", 45.0));
+                // zero-sized elements (map, set, and with a Drop impl), large elements
+                s.push(e2(prop, "zst", H_GOOD, "mut+bulk2+shape2+pred", &["cursor"], 1, "chk", 45.0));
+                s.push(e2(prop, "zd", H_GOOD, "mut+bulk2+shape2+pred", &["cursor"], 1, "chk", 45.0));
+                s.push(as_set(e2(prop, "zst", H_GOOD, "skey+sshape2+siter", &["cursor"], 1, "chk", 45.0)));
+                s.push(e1(prop, "big", H_GOOD, 0, "pred", &["cursor"], 40, 1, 0, "chk", 45.0));
                 bounds = json!({"E1": "all predicates (incl. 2^k subsets of class representatives) at every point of the growth path to N=64 (4 hashers) / 130, and structural predicates after <=1 deviation up to N=18", "E2": "fixpoint u=3"});
             } else {
                 for &hk in &HS4 {
@@ -526,6 +543,10 @@ pub fn plan(prop: &str, tier: &str) -> Option<Plan> {
                 s.push(e1(prop, "u32", H_GOOD, 0, "pred", &["cursor"], 300, 1, 0, "chk", 600.0));
                 s.push(e2(prop, "u32", H_GOOD, "mut1+ch0+shape2+pred", &["cursor"], 4, "chk", 1200.0));
                 s.push(e2(prop, "tk", H_LOW, "mut1+ch0+shape2+pred", &["cursor"], 3, "chk", 1200.0));
+                s.push(e2(prop, "zst", H_GOOD, "mut+bulk2+shape2+pred", &["cursor"], 1, "chk", 300.0));
+                s.push(e2(prop, "zd", H_GOOD, "mut+bulk2+shape2+pred", &["cursor"], 1, "chk", 300.0));
+                s.push(as_set(e2(prop, "zst", H_GOOD, "skey+sshape2+siter", &["cursor"], 1, "chk", 300.0)));
+                s.push(e1(prop, "big", H_GOOD, 0, a, &["cursor"], 33, 2, 1, "chk", 1200.0));
                 bounds = json!({"E1": "all predicates at every state with <=1 deviation up to N=48", "E2": "fixpoint u=4"});
             }
         }
@@ -551,10 +572,10 @@ pub fn plan(prop: &str, tier: &str) -> Option<Plan> {
             } else {
                 for &prof in &["chk", "rel"] {
                     for &hk in &[H_GOOD, H_LOW, H_CONST] {
-                        s.push(e1(prop, "u32", hk, 0, "mut1+ch0+shape/capall+caphuge+fill", &fl, 64, 2, 1, prof, 1200.0));
+                        s.push(e1(prop, "u32", hk, 0, "mut1+ch0+shape/capall+caphuge+fill", &fl, if hk == H_GOOD { 64 } else { 40 }, 2, 1, prof, 1800.0));
                     }
                     s.push(e1(prop, "u32", H_GOOD, 0, "capall+caphuge", &fl, 600, 1, 0, prof, 900.0));
-                    s.push(e1(prop, "u32", H_GOOD, 0, "cap+caphuge", &fl, 4096, 1, 0, prof, 900.0));
+                    s.push(e1(prop, "u32", H_GOOD, 0, "cap+caphuge", &fl, 2048, 1, 0, prof, 1800.0));
                     s.push(e1(prop, "u32", H_GOOD, 0, "withcap", &fl, 0, 1, 0, prof, 100.0));
                     s.push(e1(prop, "zst", H_GOOD, 0, "withcap", &fl, 0, 1, 0, prof, 100.0));
                     s.push(e1(prop, "tk", H_GOOD, 0, "withcap", &fl, 0, 1, 0, prof, 100.0));
@@ -567,7 +588,7 @@ pub fn plan(prop: &str, tier: &str) -> Option<Plan> {
                         s.push(x);
                     }
                 }
-                bounds = json!({"E1": "all capacity arguments at every state with <=1 deviation up to N=64, on the growth path to 600 (all n) and 4096 (boundary menu)", "profiles": "chk and rel"});
+                bounds = json!({"E1": "all capacity arguments at every state with <=1 deviation up to N=64 (HGood) / N=40 (HLow, HConst), on the growth path to 600 (all n) and 2048 (boundary menu)", "profiles": "chk and rel"});
             }
         }
         "C12" => {
